@@ -76,10 +76,64 @@ impl<T: Qcow2IoOps> Qcow2Dev<T> {
                     h.l1_table_offset()
                 };
                 let l1_entries = std::cmp::min(info.max_l1_entries(), l1_table.entries());
+                let entry_size = std::mem::size_of::<u64>();
+                let old_clusters = std::cmp::max(l1_table.header_entries() * entry_size, 1)
+                    .div_ceil(info.cluster_size());
+                let new_clusters = (l1_entries * entry_size).div_ceil(info.cluster_size());
 
-                // update l1 entries
-                self.flush_header_for_l1_table(l1_off, l1_entries).await?;
-                l1_table.update_header_entries(l1_entries.try_into().unwrap());
+                if new_clusters <= old_clusters {
+                    // the clusters holding the table have room for the
+                    // new entries: update l1 entries
+                    self.flush_header_for_l1_table(l1_off, l1_entries).await?;
+                    l1_table.update_header_entries(l1_entries.try_into().unwrap());
+                } else {
+                    // The clusters behind the table belong to someone else,
+                    // so the table can't grow where it is: move it.
+
+                    // everything depending on the old table goes out first
+                    self.flush_refcount().await?;
+                    self.flush_mapping(&l1_table).await?;
+
+                    let (new_off, cnt) = match self.allocate_clusters(new_clusters).await? {
+                        Some(res) => res,
+                        None => return Err("nothing allocated for new l1 table".into()),
+                    };
+                    if cnt < new_clusters {
+                        self.free_clusters(new_off, cnt).await?;
+                        return Err("no contiguous clusters for new l1 table".into());
+                    }
+
+                    let res = async {
+                        // the new clusters' refcounts reach the disk before
+                        // the header points to them
+                        self.flush_refcount().await?;
+
+                        // write the whole table, stale bytes of the new
+                        // clusters must not show up as entries
+                        l1_table.set_offset(Some(new_off));
+                        let blk_entries = (1usize << info.block_size_shift) / entry_size;
+                        for idx in (0..l1_table.entries()).step_by(blk_entries) {
+                            l1_table.set_dirty(idx);
+                        }
+                        self.flush_top_table(&*l1_table).await?;
+                        self.call_fsync(0, usize::MAX, 0).await?;
+
+                        self.flush_header_for_l1_table(new_off, l1_entries).await?;
+                        // the old clusters are released below, the header has
+                        // to stop pointing to them first
+                        self.call_fsync(0, usize::MAX, 0).await
+                    }
+                    .await;
+                    if let Err(err) = res {
+                        // keep using the old table
+                        l1_table.set_offset(Some(l1_off));
+                        self.free_clusters(new_off, cnt).await?;
+                        return Err(err);
+                    }
+
+                    l1_table.update_header_entries(l1_entries.try_into().unwrap());
+                    self.free_clusters(l1_off, old_clusters).await?;
+                }
             }
         }
 
